@@ -496,7 +496,15 @@ Plan genHostile(const std::string& prop, int tier, uint64_t batchSeed, uint64_t 
             // a jumbo frame: more than 32 KiB / 64 KiB on the wire
             Item& op = g.addOp(OP_RAW, ni + 1, 1);
             op.set("ver", 1).set("mtype", 1);
-            const size_t nm = 1 + r.below(4);
+            if (r.chance(1, 2))
+            {
+                // thousands of tiny messages in one frame: the work of one call must stay linear
+                Item m("m");
+                m.set("kind", 0).set("ptype", 0x20).set("len", r.range(0, 2)).set("id", g.msgId()).set("rep", r.range(1500, 3800));
+                g.nextMsgId += 4000;
+                op.sub.push_back(std::move(m));
+            }
+            const size_t nm = op.sub.empty() ? 1 + r.below(4) : 0;
             for (size_t k = 0; k < nm; ++k)
             {
                 Item m("m");
